@@ -167,6 +167,22 @@ pub fn bool_scenario(n: usize, shape: &str, op: &str) -> (u64, u64, u64) {
             let teeth: Vec<Polygon<f64>> = (0..n).map(|i| rect(0.0, 2.0 * i as f64, 10.0, 2.0 * i as f64 + 1.0)).collect();
             (MultiPolygon(teeth), MultiPolygon(vec![rect(0.0, 0.25, 1.0, 0.75)]))
         }
+        // n needle triangles with left ends at increasing x and decreasing y (a right-spine
+        // status line that the closing edges of the clipping triangle splay into a mixed shape);
+        // the clipping triangle lies above all of them: the sweep stops early with 2n open edges
+        "needles" => {
+            let needles: Vec<Polygon<f64>> = (0..n)
+                .map(|i| {
+                    let (x, y) = (i as f64, -3.0 * i as f64);
+                    Polygon::new(LineString(vec![Coord { x, y }, Coord { x: 1e7, y: y - 1.0 }, Coord { x: 1e7, y: y + 1.0 }, Coord { x, y }]), vec![])
+                })
+                .collect();
+            let clip = Polygon::new(
+                LineString(vec![Coord { x: -2.0, y: 0.5 }, Coord { x: n as f64 + 1.0, y: 3.0 }, Coord { x: n as f64 + 1.0, y: 5.0 }, Coord { x: -2.0, y: 0.5 }]),
+                vec![],
+            );
+            (MultiPolygon(needles), MultiPolygon(vec![clip]))
+        }
         // k x k grid of unit squares against the same grid shifted by half a cell
         "grid" => {
             let k = (n as f64).sqrt().ceil() as usize;
